@@ -42,7 +42,7 @@ type env struct {
 	sigs    []func() string
 	sigName []string
 	sig0    []string
-	hit     bool // the thing named by c.Kind was applied
+	hit     bool           // the thing named by c.Kind was applied
 	caps    map[string]int // capacity of the Sym/Tri operands by name
 }
 
